@@ -263,6 +263,16 @@ def body_parts(data) -> Outcome:
                             want_m[idx] = not any(all(ids[a] in parts[pj][1][a] for a in carried) for pj in order[: step + 1])
                     if m is None or m.shape != want_m.shape or (m != want_m).any():
                         out.fail("part-mask-wrong", f"step {step} part {fi}: {o} mask {None if m is None else m.tolist()} want {want_m.tolist()}")
+        # ---- a part that is run again (a resumed part: everything it selects is already stored) computes nothing ----
+        if not out.failures:
+            fi, _sel = parts[order[data["pick"] % len(order)]]
+            del log[:]
+            try:
+                pipe.map(inputs, fixed_indices={a: dec(k) for a, k in fi.items()}, cleanup=False, **kw)
+                if len(log):
+                    out.fail("part-rerun-recomputed", f"part {fi} run a second time computed {list(log)[:4]}")
+            except Exception as e:
+                out.fail(exc_bucket(e, "part-rerun-raised"), f"part {fi}: {exc_detail(e)}")
         # ---- end state ------------------------------------------------------------------------------------
         for o in names:
             try:
